@@ -212,6 +212,9 @@ func TestWriteFault(t *testing.T) {
 // ---- C18: histories ------------------------------------------------------------------------
 
 func soloOutput(c *core.Ctx, in *inst) outcome {
+	if in.reference != nil {
+		in = in.reference()
+	}
 	sw, err, pi := runInto(c, in, core.WriterPlan{FailAt: -1})
 	if pi != nil {
 		c.CheckTotal(in.name, 0, pi, 0)
